@@ -21,6 +21,8 @@ for p in props:
         na.append({'property_id': p, 'reason': frags.get(p, {}).get('reason', 'check not built yet (work in progress; see DESIGN.md)')})
 base = json.load(open(os.path.join(ROOT, 'harness', 'manifest.base.json')))
 base['checks'] = checks
+for e in base.get('engines', []):
+    e['serves_properties'] = [c['property_id'] for c in checks]
 base['not_applicable'] = na
 json.dump(base, open(os.path.join(ROOT, 'MANIFEST.json'), 'w'), indent=1)
 print('checks:', [c['property_id'] for c in checks], 'n/a:', [x['property_id'] for x in na])
